@@ -634,6 +634,88 @@ class ParserIter(Contract):
         return out
 
 
+# ---- the tokenizer's own queue: Parser._decode takes the tokens out through Tokenizer.__iter__, so the order in which
+# messages come out of a parser is the order in which THIS iteration hands the tokens over (C05: first-in first-out)
+class _TokIterLoop(LoopSpec):
+    header = 'len(self._messages)'
+
+    def enter(self, ip, fr, seqv):
+        st = LoopSpec.enter(self, ip, fr, None)
+        st.tok = fr.env['self']
+        st.q0 = st.tok.attrs['_messages'].v.e
+        st.out = z3.Empty(IntSeq)          # ghost: items yielded so far
+        st.tok.ghost['out'] = st
+        return st
+
+    def havoc(self, ip, fr, st):
+        ctx = ip.ctx
+        st.out = ctx.fresh('yielded', IntSeq)
+        st.tok.attrs['_messages'] = Cell(SSeq(ctx.fresh('rest', IntSeq), collections.deque), collections.deque)
+
+    def step(self, ip, fr, st):
+        for y in st.yields:
+            st.out = z3.Concat(st.out, z3.Unit(V(y)))
+
+    def inv(self, ip, fr, st):
+        return [z3.Concat(st.out, st.tok.attrs['_messages'].v.e) == st.q0]
+
+
+def tokenizer_with_queue(h):
+    """a Tokenizer whose queue holds an arbitrary number of tokens; iteration only MOVES them, so they are
+    represented by integers (identities)"""
+    import mido.tokenizer as T
+    q = h.int_seq('queue', collections.deque, mutable=True) if h.sym else collections.deque(h.values['queue'])
+    t = h.obj(T.Tokenizer, {'_status': 0, '_bytes': [], '_messages': q, '_datalen': 0})
+    h.tok = t
+    h.q0 = V(q) if h.sym else tuple(q)
+    return t
+
+
+@contract
+class TokIter(Contract):
+    """iterating a tokenizer hands out the queued tokens first-in first-out and leaves the queue empty"""
+    target = 'mido.tokenizer:Tokenizer.__iter__'
+    properties = ('C05', 'C04')
+    loops = {('mido.tokenizer:Tokenizer.__iter__', 0): _TokIterLoop()}
+    collect = True
+    raises = {}
+
+    def inputs(self, h, cfg):
+        return [tokenizer_with_queue(h)], {}
+
+    def ensures(self, h, cfg, a, r):
+        q = attrs_of(h.tok)['_messages']
+        q1 = V(q) if not isinstance(q, collections.deque) else tuple(q)
+        out = {'queue-empty-at-exhaustion': eq(length(q1), 0)}
+        if h.sym:
+            st = h.tok.ghost.get('out')
+            out['yielded-everything-in-order'] = st.out == st.q0 if st is not None else False
+        else:
+            out['yielded-everything-in-order'] = tuple(r) == tuple(h.q0)
+        return out
+
+    def samples(self, cfg):
+        return [{'queue': []}, {'queue': [5]}, {'queue': [3, 1, 2]}, {'queue': list(range(20))}]
+
+
+@contract
+class TokLen(Contract):
+    target = 'mido.tokenizer:Tokenizer.__len__'
+    properties = ('C05',)
+    raises = {}
+
+    def inputs(self, h, cfg):
+        return [tokenizer_with_queue(h)], {}
+
+    def ensures(self, h, cfg, a, r):
+        q = attrs_of(h.tok)['_messages']
+        q1 = V(q) if not isinstance(q, collections.deque) else tuple(q)
+        return {'is-the-queue-length': eq(V(r), length(h.q0)), 'queue-unchanged': eq(q1, h.q0)}
+
+    def samples(self, cfg):
+        return [{'queue': []}, {'queue': [5]}, {'queue': [3, 1, 2]}]
+
+
 # ====================================================================== C06: resynchronisation on the real code
 @contract
 class ResyncFixed(Contract):
